@@ -67,6 +67,19 @@ func (wrr *WeightedRoundRobinStrategy) AddBackend(backend *Backend) {
 		currentWeight: 0, // Initial weight is 0
 	}
 	wrr.backends = append(wrr.backends, weightedBackend)
+	wrr.resetCurrentWeights()
+}
+
+// resetCurrentWeights restarts the smooth weighted round-robin cycle. The
+// running weights only balance out (sum to zero) over the set of backends they
+// were accumulated with: after a membership change the survivors would carry
+// the credit or debt they built up against backends that are gone (after
+// removing a heavy backend the others can be starved or favoured for many
+// requests), so the cycle starts afresh. Must be called with the lock held.
+func (wrr *WeightedRoundRobinStrategy) resetCurrentWeights() {
+	for _, wb := range wrr.backends {
+		wb.currentWeight = 0
+	}
 }
 
 // RemoveBackend removes a backend from the pool.
@@ -79,6 +92,7 @@ func (wrr *WeightedRoundRobinStrategy) RemoveBackend(backend *Backend) {
 			// Remove the backend by swapping with the last element and truncating.
 			wrr.backends[i] = wrr.backends[len(wrr.backends)-1]
 			wrr.backends = wrr.backends[:len(wrr.backends)-1]
+			wrr.resetCurrentWeights()
 			return
 		}
 	}
